@@ -10,24 +10,40 @@ from checks import _ll
 PROPERTY = "C09"
 LEAN_MODULES = ["TapkeeVerif.Props.C09"]
 LEAN_EXES = ["model_c09"]
-REQUIRED_THEOREMS = [
+REQUIRED_THEOREMS = [     # every theorem of the Props module (all MANIFEST-named ones included): deleting one fails the audit
+    "TapkeeVerif.C09.heat_argument",
+    "TapkeeVerif.C09.heats_eq",
     "TapkeeVerif.C09.laplacian_eq",
     "TapkeeVerif.C09.degrees_eq",
+    "TapkeeVerif.C09.laplacianLD_get",
+    "TapkeeVerif.C09.degreesD_get",
+    "TapkeeVerif.C09.computeLaplacian_eq",
     "TapkeeVerif.C09.laplacian_symm",
     "TapkeeVerif.C09.laplacian_mulVec_one",
+    "TapkeeVerif.C09.laplacian_quadratic_form",
     "TapkeeVerif.C09.laplacian_psd",
-    "TapkeeVerif.C09.heat_argument",
-    "TapkeeVerif.C09.le_solution",
-    "TapkeeVerif.C09.skipped_eigenvector_is_constant",
+    "TapkeeVerif.C09.degrees_pos",
+    "TapkeeVerif.C09.diffusion_abbreviations",
     "TapkeeVerif.C09.diffusion_is_normalised_operator",
+    "TapkeeVerif.C09.diffusion_entry",
+    "TapkeeVerif.C09.sqrtQD_get",
+    "TapkeeVerif.C09.kernel0_symm",
+    "TapkeeVerif.C09.kernel0_upper_only",
+    "TapkeeVerif.C09.diffusionMatrix_symm",
     "TapkeeVerif.C09.diffusion_top_eigenpair",
+    "TapkeeVerif.C09.diffusion_markov",
     "TapkeeVerif.C09.diffusion_conjugate",
+    "TapkeeVerif.C09.npowK_eq_pow",
     "TapkeeVerif.C09.dm_coordinates",
     "TapkeeVerif.C09.dm_timesteps_only_exponent",
-    "TapkeeVerif.C09.dm_solution",
+    "TapkeeVerif.C09.dm_coordinates_trivial",
+    "TapkeeVerif.C09.le_solution",
+    "TapkeeVerif.C09.skipped_eigenvector_is_constant",
     "TapkeeVerif.C09.belowCount_sound",
     "TapkeeVerif.C09.belowCount_bounds_eigenvalues",
     "TapkeeVerif.C09.bottom_certified",
+    "TapkeeVerif.C09.dm_solution",
+    "TapkeeVerif.C09.dm_solution_indices",
 ]
 EXE = "model_c09"
 
